@@ -15,6 +15,8 @@ pub struct Refused {
 
 pub struct Shipped {
     pub constants: Vec<Constant>,
+    /// the same constants as plain CBOR values, exactly as shipped (same order as `constants`)
+    pub raw: Vec<serde_cbor::Value>,
     pub refused: Vec<Refused>,
     /// per asset: (name, number of constants)
     pub assets: Vec<(String, usize)>,
@@ -42,6 +44,7 @@ pub fn load(repo: &str) -> Result<Shipped, String> {
         .collect();
     names.sort();
     let mut constants = Vec::new();
+    let mut raw = Vec::new();
     let mut refused = Vec::new();
     let mut assets = Vec::new();
     for n in names {
@@ -59,7 +62,10 @@ pub fn load(repo: &str) -> Result<Shipped, String> {
         assets.push((n.clone(), list.len()));
         for v in list {
             match serde_cbor::value::from_value::<Constant>(v.clone()) {
-                Ok(c) => constants.push(c),
+                Ok(c) => {
+                    constants.push(c);
+                    raw.push(v.clone());
+                }
                 Err(e) => {
                     let tokens = match &v {
                         V::Map(m) => match m.get(&V::Text("tokens".into())) {
@@ -73,7 +79,7 @@ pub fn load(repo: &str) -> Result<Shipped, String> {
             }
         }
     }
-    Ok(Shipped { constants, refused, assets })
+    Ok(Shipped { constants, raw, refused, assets })
 }
 
 /// Canonical bytes of a constant (for multiset comparison of stored payloads).
@@ -397,4 +403,19 @@ pub fn shared_prefixes(s: &Shipped, max_len: usize, cap: usize) -> Vec<String> {
         out = (0..cap).map(|i| out[(i as f64 * step) as usize].clone()).collect();
     }
     out
+}
+
+/// A plain CBOR value without its null map entries (an absent optional field and a null one are the
+/// same constant), hashed over its canonical encoding.
+pub fn norm_hash(v: &serde_cbor::Value) -> String {
+    use serde_cbor::Value as V;
+    fn norm(v: &V) -> V {
+        match v {
+            V::Map(m) => V::Map(m.iter().filter(|(_, x)| !matches!(x, V::Null)).map(|(k, x)| (norm(k), norm(x))).collect()),
+            V::Array(a) => V::Array(a.iter().map(norm).collect()),
+            other => other.clone(),
+        }
+    }
+    let bytes = serde_cbor::to_vec(&norm(v)).unwrap_or_default();
+    format!("{:016x}", crate::rng::fnv1a(&bytes))
 }
